@@ -940,7 +940,13 @@ func (g *genCtx) generate(cf *ContractFile) (string, error) {
 					}
 					mi.Ghost = raw[:j]
 					inner := raw[j+1 : len(raw)-1]
-					if strings.TrimSpace(inner) == "*" {
+					hasStar := false
+					for _, a := range splitTop(inner, ',') {
+						if strings.TrimSpace(a) == "*" {
+							hasStar = true
+						}
+					}
+					if hasStar {
 						mi.Kind = "ghostall"
 					} else {
 						mi.Kind = "ghost"
